@@ -739,6 +739,9 @@ class ReadSetReader:
                 for i, allele in enumerate(padded_alleles)
                 if restricted_variants is None or i in restricted_variants.as_vector()
             ]
+            if not distances:
+                # no allele to choose from (the genotype restricting the alleles is not called)
+                return None, None
             distances.sort(key=lambda x: x[1])
             base_qual_score = (
                 distances[0][1] - distances[1][1] if len(distances) > 1 else distances[0][1]
@@ -749,6 +752,9 @@ class ReadSetReader:
                 for i, allele in enumerate(padded_alleles)
                 if restricted_variants is None or i in restricted_variants.as_vector()
             ]
+            if not distances:
+                # no allele to choose from (the genotype restricting the alleles is not called)
+                return None, None
             distances.sort(key=lambda x: x[1])
             base_qual_score = 30
 
